@@ -43,9 +43,17 @@ type Mutant struct {
 	File   string   `json:"file"`
 	Old    string   `json:"old"`
 	New    string   `json:"new"`
+	Edits  []Edit   `json:"edits"` // further replacements (same or other files)
 	Config string   `json:"config"`
 	Canary bool     `json:"canary"`
 	Note   string   `json:"note"`
+}
+
+// Edit is one exact-once replacement.
+type Edit struct {
+	File string `json:"file"`
+	Old  string `json:"old"`
+	New  string `json:"new"`
 }
 
 func loadMutants(verif string) ([]Mutant, error) {
@@ -125,13 +133,24 @@ func worker() (code int) {
 			res.Error = "unknown mutant " + *flagMutant
 			return 3
 		}
-		path := filepath.Join(*flagRepo, m.File)
-		src, err := os.ReadFile(path)
-		if err != nil || strings.Count(string(src), m.Old) != 1 {
-			res.Stale = true
-			return 0
+		overlay = map[string][]byte{}
+		edits := append([]Edit{{m.File, m.Old, m.New}}, m.Edits...)
+		for _, e := range edits {
+			path := filepath.Join(*flagRepo, e.File)
+			src, ok := overlay[path]
+			if !ok {
+				var err error
+				if src, err = os.ReadFile(path); err != nil {
+					res.Stale = true
+					return 0
+				}
+			}
+			if strings.Count(string(src), e.Old) != 1 {
+				res.Stale = true
+				return 0
+			}
+			overlay[path] = []byte(strings.Replace(string(src), e.Old, e.New, 1))
 		}
-		overlay = map[string][]byte{path: []byte(strings.Replace(string(src), m.Old, m.New, 1))}
 	}
 	p, err := core.Load(*flagRepo, cfg, overlay)
 	if err != nil {
